@@ -178,7 +178,7 @@ class IRModule:
                 size = 64
             if g['ext']:
                 size = max(size, 64)
-            o = st.alloc(size, 'global', n)
+            o = st.alloc(size, 'tls' if g.get('tls') else 'global', n)
             self.gaddr[n] = o.base; self.gobj[n] = o
         for n, g in m.globals.items():
             if n not in self.gobj or g['ext'] or not g['init_text']:
@@ -698,26 +698,28 @@ class Decoder:
                 eng.goto(st, fr, ta if c else tb)
             return f
         if op == 'load':
-            p.eat('atomic'); p.eat('volatile')
+            at = p.eat('atomic'); p.eat('volatile')
             t = p.type(); p.expect(','); pt, op_ = self.typed(p)
+            order = (re.search(r'\b(unordered|monotonic|acquire|release|acq_rel|seq_cst)\b', p.rest()) or [None])[0] if at else None
             n = m.sizeof(t); kp, vp = op_; dec = irm.decode
             simple = isinstance(t, (TInt, TPtr)) and (isinstance(t, TPtr) or t.n % 8 == 0)
 
             def f(eng, st, fr):
                 a = fr.loc[vp] if kp else vp
-                cells = eng.mem_read(st, a, n)
+                cells = eng.mem_read(st, a, n, order)
                 fr.loc[d] = cells_int(cells) if simple else dec(cells, t)
             return f
         if op == 'store':
-            p.eat('atomic'); p.eat('volatile')
+            at = p.eat('atomic'); p.eat('volatile')
             t, ov = self.typed(p); p.expect(','); pt, op_ = self.typed(p)
+            order = (re.search(r'\b(unordered|monotonic|acquire|release|acq_rel|seq_cst)\b', p.rest()) or [None])[0] if at else None
             kv, vv = ov; kp, vp = op_; enc = irm.encode
 
             def f(eng, st, fr):
                 loc = fr.loc
                 v = loc[vv] if kv else vv
                 a = loc[vp] if kp else vp
-                eng.mem_write(st, a, enc(v, t))
+                eng.mem_write(st, a, enc(v, t), order)
             return f
         if op == 'getelementptr':
             p.eat('inbounds'); bt = p.type(); p.expect(','); _, ob = self.typed(p)
@@ -980,13 +982,15 @@ class Decoder:
                 a = loc[op_[1]] if op_[0] else op_[1]
                 c = loc[oc[1]] if oc[0] else oc[1]
                 nv = loc[on[1]] if on[0] else on[1]
-                old = cells_int(eng.mem_read(st, a, n, atomic=True))
+                old = cells_int(eng.mem_read(st, a, n, atomic='rmw'))
                 if type(old) is int and type(c) is int:
                     eq = old == c
                 else:
                     eq = eng.decide(st, simp(bvv(old, w) == bvv(c, w)))
                 if eq:
-                    eng.mem_write(st, a, int_cells(nv, n), atomic=True)
+                    eng.mem_write(st, a, int_cells(nv, n), atomic='rmw')
+                else:
+                    eng.mt_rmw_failed(st)
                 loc[d] = (old, 1 if eq else 0)
             return f
         p.eat('volatile'); rop = p.word(); pt, op_ = self.typed(p); p.expect(','); tv, ov = self.typed(p)
@@ -997,7 +1001,7 @@ class Decoder:
             loc = fr.loc
             a = loc[op_[1]] if op_[0] else op_[1]
             v = loc[ov[1]] if ov[0] else ov[1]
-            old = cells_int(eng.mem_read(st, a, n, atomic=True))
+            old = cells_int(eng.mem_read(st, a, n, atomic='rmw'))
             if rop == 'xchg':
                 nv = v
             elif bop is None:
@@ -1006,7 +1010,7 @@ class Decoder:
                 nv = CONC_BIN[bop](old, v, w) & mask
             else:
                 nv = sym_binop(bop, old, v, w)
-            eng.mem_write(st, a, int_cells(nv, n), atomic=True)
+            eng.mem_write(st, a, int_cells(nv, n), atomic='rmw')
             loc[d] = old
         return f
 
@@ -1086,6 +1090,7 @@ class Engine:
             for h in MODULE_HOOKS:
                 h(irm)
         self.trace_throw = bool(os.environ.get('IRSYM_TRACE_THROW'))
+        self.mt = None              # multi-thread event mode (irsym_mt)
         self.inputs = None          # concrete replay: name -> list of values (vs_* return them instead of fresh symbols)
         self.inpos = {}
         if int_mode:
@@ -1471,17 +1476,27 @@ class Engine:
     def oname(self, o):
         return '%s object %s' % (o.kind, o.name or hex(o.base))
 
-    def mem_read(self, st, a, n, atomic=False):
+    def mt_rmw_failed(self, st):
+        if self.mt is not None:
+            self.mt.rmw_failed(self, st)
+
+    def mem_read(self, st, a, n, atomic=None):
         if n == 0:
             return []
         o, off = self.resolve(st, a, n, False)
+        if self.mt is not None:
+            r = self.mt.on_read(self, st, o, off, n, atomic)
+            if r is not None:
+                return r
         return o.data[off:off + n]
 
-    def mem_write(self, st, a, cells, atomic=False):
+    def mem_write(self, st, a, cells, atomic=None):
         n = len(cells)
         if n == 0:
             return
         o, off = self.resolve(st, a, n, True)
+        if self.mt is not None and self.mt.on_write(self, st, o, off, cells, atomic):
+            return
         if o.ro:
             self.violation(st, 'memory', 'write to read-only %s' % self.oname(o)); raise PathEnd('violation')
         o = st.wobj(o)
@@ -2168,6 +2183,9 @@ def x_vs_assume(eng, st, a):
 def x_vs_assert(eng, st, a):
     c = a[0]
     msg = eng.cstr_bytes(st, a[1]).decode('latin1') if a[1] else ''
+    if eng.mt is not None:
+        eng.mt.on_assert(eng, st, c, msg)
+        return
     if type(c) is int:
         if not c:
             eng.violation(st, 'assert', msg)
